@@ -812,7 +812,73 @@ def c17_race(idx: int) -> bool:
     return run(_race_body, idx)
 
 
-DIMS = {"c17_race": race_dims}
+# ---- teardown of an evicted pool from ANY queue content ------------------------------------------------------------------------
+
+def teardown_dims(part):
+    return [[1, 2, 3], list(range(8)), [0, 1, 2, 3]]
+
+
+def _teardown(maxsize, mask, way):
+    """The pool of an origin holds, bottom to top, live keep-alive connections and None placeholders in any arrangement (a None on
+    top of a live connection is what a failed request leaves when another request returned its connection just before).  However
+    the pool leaves the cache — clear(), eviction by another origin, close(), dropping the manager — every socket is closed once
+    nothing refers to the pool any more."""
+    peer = OkPeer()
+    netw = N.install(peer)
+    E.install_clock()
+    try:
+        pm = PoolManager(num_pools=1, maxsize=maxsize)
+        pool = pm.connection_from_url("http://a/")
+        while not pool.pool.empty():
+            pool.pool.get_nowait()
+        live = 0
+        for slot in range(maxsize):
+            if mask >> slot & 1:
+                c = pool._new_conn()
+                c.connect()
+                pool.pool.put(c)
+                live += 1
+            else:
+                pool.pool.put(None)
+        c = None
+        if netw.open_now != live:
+            return _fail("harness: %d sockets open, %d expected" % (netw.open_now, live))
+        if way == 0:
+            pm.clear()
+        elif way == 1:
+            pm.connection_from_url("http://b/")          # evicts a's pool (num_pools=1)
+        elif way == 2:
+            pool.close()
+        else:
+            pm = None
+        pool = None
+        gc.collect()
+        if netw.open_now != 0:
+            arrangement = ["live" if mask >> i & 1 else "None" for i in range(maxsize)]
+            return _fail("%d socket(s) still open after the pool (queue bottom->top %r) left the cache by %s and was dropped"
+                         % (netw.open_now, arrangement, ["clear()", "eviction", "close()", "dropping the manager"][way]))
+        mark("torn down")
+        return True
+    finally:
+        N.uninstall()
+        E.uninstall_clock()
+
+
+def _teardown_point(idx):
+    from kit.h import decode_point
+    maxsize, mask, way = decode_point(idx, teardown_dims)
+    return N._untraced(_teardown)(maxsize, mask & ((1 << maxsize) - 1), way)
+
+
+def c17_teardown(idx: int) -> bool:
+    """
+    pre: 0 <= idx < P.n
+    post: _
+    """
+    return run(_teardown_point, idx)
+
+
+DIMS = {"c17_race": race_dims, "c17_teardown": teardown_dims}
 
 
 def JOBS(tier):
@@ -832,6 +898,7 @@ def JOBS(tier):
                      "timeout": t, "path_timeout": 60})
         jobs.append({"func": "c17_manager", "part": {"o1": o1, "length": 4, "lookup": True},
                      "timeout": t, "path_timeout": 60})
+    jobs.append({"func": "c17_teardown", "part": {}, "timeout": t, "samples": 1})
     xticks = [10, 10, 4, 19, 10, 14, 10, 10]    # scheduling points of each X script when it runs first (a miss: 9-10; measured)
     for num_pools in (1, 2):
         for w in range(len(W_OPS)):
